@@ -165,18 +165,27 @@ def run(tier, res, force_search=False):
                     y0 -= y0 % 4
                 if rng.random() < 0.15:
                     y0 = rng.choice([2099, 2100, 2120, 1920])  # spans touching a century year that is not a leap year
+                aligned = None
                 if scen == "equal-shifted":
-                    n_ref = 365 * 3 + rng.randint(0, 40)
+                    # more than four years from 1 January of different years: each span holds exactly one 31 December of a leap year,
+                    # at different positions, so the day-of-year axes of the aligned series really differ
+                    n_ref = 1461 + rng.randint(0, 40)
+                    aligned = "OHF"  # all three aligned, pairwise different leap positions: any confusion of two series' index sets shows
+                    kH = rng.randint(1, 3)
+                    jF = rng.choice([j for j in (1, 2, 3) if (20 + j) % 4 not in (0, (-kH) % 4)])
                     dO = probes.dates_from(datetime.date(y0 - 20, 1, 1), n_ref)
-                    dH = probes.dates_from(datetime.date(y0 - 20 - rng.randint(1, 3), 1, 1), n_ref)
+                    dH = probes.dates_from(datetime.date(y0 - 20 - kH, 1, 1), n_ref)
                 else:
                     dO = probes.dates_from(datetime.date(y0 - 20, 1, 1), 365 * 2 + rng.randint(0, 40))
                     dH = probes.dates_from(datetime.date(y0 - 24, 1, 1), 365 * 2 + rng.randint(0, 40))
                 dF = probes.dates_from(datetime.date(y0, 1, 1) + datetime.timedelta(days=rng.choice([0, rng.randint(0, 364)])), 365 * 2 + rng.randint(0, 40))
+                if aligned and "F" in aligned:
+                    dF = probes.dates_from(datetime.date(y0 + jF, 1, 1), dH.size)  # aligned with cm_hist and obs, a third leap position
                 omitted = ()
                 if scen == "partial-times":
                     # some time arrays omitted: the library infers a daily calendar from 1950-01-01 for those (and only those)
-                    omitted = rng.choice([("obs",), ("cm_hist",), ("obs", "cm_hist"), ("cm_future",), ("obs", "cm_future")])
+                    combos = [("obs",), ("cm_hist",), ("obs", "cm_hist"), ("cm_future",), ("obs", "cm_future")]
+                    omitted = combos[(sum(map(ord, name)) + rep + C.seed()) % len(combos)]  # cycles over debiasers, repetitions and seeds
                     inferred = datetime.date(1950, 1, 1)
                     if "obs" in omitted:
                         dO = probes.dates_from(inferred, dO.size)
@@ -251,7 +260,7 @@ def run(tier, res, force_search=False):
                 kind = rng.choice(["x3", "+1e6", "nan", "spike", "spike"])
                 case = {"what": "locality/" + name, "scenario": scen, "L": L, "S": S, "target_index": ti, "target_doy": t, "perturbation": kind,
                         "startO": str(rawO[0]), "startH": str(rawH[0]), "startF": str(rawF[0]), "nO": int(dO.size), "nH": int(dH.size), "nF": int(dF.size),
-                        "leap": leap, "seed": C.seed(), "time_encoding": enc, "time_arrays_omitted": list(omitted), "storage_order": storage}
+                        "leap": leap, "seed": C.seed(), "time_encoding": enc, "time_arrays_omitted": list(omitted), "storage_order": storage, "aligned": aligned}
                 if scen.startswith("reconf"):
                     L0 = L if scen == "reconf-step" else L + rng.choice([10, 30])
                     # a stale (larger) step is what would widen the neighbourhood: prefer a larger step at construction
@@ -317,6 +326,19 @@ def run(tier, res, force_search=False):
                         res.extra["locality_skipped_perturbed_run_raises"] = res.extra.get("locality_skipped_perturbed_run_raises", 0) + 1
                 if a is None or b is None:
                     continue
+                same = (a[ti] == b[ti]) or (np.isnan(a[ti]) and np.isnan(b[ti]))
+                if same and kind != "+1e6" and scen in ("equal-shifted", "partial-times", "reordered", "partial-year", "unequal"):
+                    # some methods ignore the drawn perturbation (ISIMIP drops NaNs; a few spikes may miss a misplaced window):
+                    # where the scenario is about WHICH steps a window takes, also shift all far-away data
+                    kind0, kind = kind, "+1e6"
+                    with warnings.catch_warnings():
+                        warnings.simplefilter("ignore")
+                        try:
+                            b2 = run_deb(perturb(o, doyO)[0], perturb(h, doyH)[0], perturb(f, doyF)[0])
+                            b = b2
+                            case["perturbation"] = kind0 + ", then +1e6"
+                        except Exception:  # noqa: BLE001
+                            kind = kind0
                 res.count(("loc", name, scen, L, S, t, kind), n1 + n2 + n3 > 0, sample=case if len(res.cov["samples"]) < 6 else None)
                 if scen == "partial-year":
                     # nothing of the partial record is near the target: whatever the value is (NaN for an empty sample), it must
